@@ -91,7 +91,7 @@ CLAIMED = {
              'the fresh value. The transfer tables (which slot each copy/transform carries over and how) are regenerated from the 8 source '
              'files on every run and checked exhaustively (vm_compute) against a law table; for Polygon2D\'s signed area the laws are proved '
              'from the shoelace theorems, including that the repaired reverse defect is unsound. Every derived property after exhaustive '
-             'short and sampled long histories is compared with a fresh object.',
+             'short and sampled long histories is compared with a fresh object. A generated audit proves that no member taking parameters stores on its receiver (memo slots are filled by parameter-free members only), and the generated Plane.move is proved to keep cached plane coordinates valid.',
         note='Trusted: Coq kernel, tools/xfer.py (cross-checked dynamically against real objects), harness. Laws other than the '
              'Polygon2D area/orientation ones are a hand-written specification validated by the history runner. Known finding: '
              'Face3D.mesh_grid vertex normals of unused vertices.',
@@ -121,7 +121,7 @@ CLAIMED = {
              'which vertex (or plane point) each face starts at, is multiplied by det M under any linear map (k^3 for scaling), is '
              'the determinant for a tetrahedron and the sum of the pieces for every solid assembled from tetrahedra glued along '
              'coincident opposite faces. Outward orientation and the reaction to removed/duplicated faces are searched on shuffled, '
-             'flipped, re-started closed solids against the exact divergence volume and an independent incidence count.',
+             'flipped, re-started closed solids against the exact divergence volume and an independent incidence count. The index bookkeeping of from_offset_face (generated helper) is proved: cyclic wall quads and edges at any start index, indices inside the loop block.',
         note='Partial: get_outward_faces (ray parity) and from_faces welding are validated, not proved. Trusted: Coq kernel, the hand '
              'model and its correspondence, harness.',
         technique='machine-checked Coq proof about a hand-written executable model + vm_compute correspondence with the '
@@ -145,7 +145,7 @@ CLAIMED = {
              'are u v and (1-u) v. The source while-loop of LineSegment2D/3D.subdivide_evenly itself (translated with explicit fuel) is proved, '
              'for every n >= 1 in exact arithmetic, to return the start point followed by the points at k/n, k = 1..n (the end-point repair '
              'never fires: short results are purely a rounding effect). Arcs, polylines, subdivide(distances), to_polyline and arc '
-             'splitting (incl. wrap-around arcs cut twice) are searched.',
+             'splitting (incl. wrap-around arcs cut twice) are searched. point_at_length / point_at_angle / length of arcs and segments (generated) are proved to be the arc-length parametrisation, the 3D arc being the plane image of its 2D arc.',
         note='Trusted: Coq kernel incl. its primitive floats (Print Assumptions lists the PrimFloat/PrimInt63 primitives), hand model '
              'FloatLoops.v + its exhaustive correspondence, py2coq, harness.',
         technique='machine-checked Coq proof: exhaustive vm_compute over the finite stated domain with a bit-exact PrimFloat model, and '
@@ -181,7 +181,7 @@ CLAIMED = {
              'ints); sorting after a set is order-free for any permutation; a counter tie-break makes stamps positions; reading a memo '
              'leaves data and observation unchanged. Enforced dynamically: an introspected sweep over ~600 public callables with deep '
              'before/after snapshots of receiver, arguments and caller lists and a repeated call, and a workload digest compared across '
-             'PYTHONHASHSEED 0/1/2/random and under a frozen and a backwards-running clock.',
+             'PYTHONHASHSEED 0/1/2/random and under a frozen and a backwards-running clock. Generated audit tables of all state kept between calls (receiver writes in parameterised members, class / module state, argument writes of public functions) are proved empty but for the one documented case; every property is also read after every other one and compared with an untouched equal object.',
         note='Partial: absence of mutation is a dynamic check (a functional model is pure by construction). Trusted: Coq kernel, '
              'tools/audit.py, harness.',
         technique='machine-checked Coq proof of the logical part over an audit table regenerated from the source; dynamic snapshot sweep'),
@@ -192,7 +192,7 @@ CLAIMED = {
              'result is maximal (no edge of a later chain, and no unused segment while a chain grows, touches an end of an earlier chain). Total '
              'length, maximality (as many results as chains were cut, with jitter below tol/4) in 2D and 3D, and that '
              'joined_intersected_boundary / join_coplanar_faces of lattice tilings (voids, T-junctions) enclose exactly the union of '
-             'the tiles (unit-cell sets) are searched.',
+             'the tiles (unit-cell sets) are searched, also far from the origin and with tiles stretched 150..400 : 1. The end-point matching test (generated is_equivalent) is proved absolute, symmetric and position independent.',
         note='Partial: maximality under the non-transitive tolerance and outline extraction are validated, not proved. Trusted: Coq '
              'kernel, hand model + correspondence, harness.',
         technique='machine-checked Coq proof about a hand-written executable model + vm_compute correspondence; exact search'),
@@ -210,7 +210,7 @@ CLAIMED = {
              'and holed shapes in rational planes, cell sizes 1/40..2x the extent, offsets, flip, centroids on/off) - congruent cells '
              'of the exactly computed adjusted size, corners inside the source shape (exact rational containment), reported areas / '
              'centroids / normals equal recomputed ones, normal direction; random removal patterns and triangulation keep per-face '
-             'data aligned; OBJ round trips exact and ASCII STL round trips to 1e-6 for triangle, quad and mixed meshes.',
+             'data aligned; OBJ round trips exact and ASCII STL round trips to 1e-6 for triangle, quad and mixed meshes. remove_faces_only (generated) is proved to keep exactly the flagged faces in order with the vertices untouched, and Plane.move to keep the plane coordinates of the grid valid.',
         note='Partial: inside filtering and file I/O are validated, not proved; removal is proved for a hand model; mesh colours are not exercised (ladybug.color '
              'is absent here). Trusted: Coq kernel, py2coq, harness oracles.',
         technique=T_Q),
@@ -265,7 +265,7 @@ CLAIMED = {
              'as the 2D routine with the test |(a - v) x (n - v)| >= tolerance, the two tests are proved equal on plane-embedded points (sqrt '
              'exact on squares), and therefore the siblings are proved to keep the same vertices of every embedded polyline. Every other shared zero-argument member of the six sibling pairs and the shared '
              'parametrised methods (closest point, distance, subdivision, intersection, clean-up, containment, join_segments) are '
-             'compared by introspection in the XY plane and in random rational planes.',
+             'compared by introspection in the XY plane and in random rational planes. join_meshes (generated, any number of meshes) is proved to give the shifted concatenation with every index pointing at its own vertex and equal face lists for the 2D and 3D siblings.',
         note='Trusted: Coq kernel (+ primitive floats), py2coq, FloatLoops.v correspondence, harness. Members beyond the proved ones '
              'are validated.',
         technique=T_Q),
